@@ -114,6 +114,10 @@ NC_reset_maxopenfiles(int req_max)
         else
             _cdfs_size = req_max;
 
+        /* never more than the system allows, as when the list is resized */
+        if (_cdfs_size > sys_limit)
+            _cdfs_size = sys_limit;
+
         _cdfs = malloc(sizeof(NC *) * (size_t)_cdfs_size);
 
         /* If allocation fails, return with failure */
@@ -286,7 +290,7 @@ NC_open(const char *path, int mode)
          */
         if (cdfid == _cdfs_size && _ncdf >= max_NC_open) {
             /* if the current max already reaches the system limit, fail */
-            if (max_NC_open == MAX_AVAIL_OPENFILES) {
+            if (max_NC_open >= MAX_AVAIL_OPENFILES) {
                 NCadvise(NC_ENFILE, "maximum number of open cdfs allowed already reaches system limit %d",
                          MAX_AVAIL_OPENFILES);
                 return -1;
@@ -294,6 +298,12 @@ NC_open(const char *path, int mode)
             /* otherwise, increase the current max to the system limit */
             if (FAIL == NC_reset_maxopenfiles(MAX_AVAIL_OPENFILES)) {
                 NCadvise(NC_ENFILE, "Could not reset max open files limit");
+                return -1;
+            }
+            /* the list may have kept its size: there is no slot for this file then */
+            if (cdfid >= _cdfs_size) {
+                NCadvise(NC_ENFILE, "maximum number of open cdfs allowed already reaches system limit %d",
+                         MAX_AVAIL_OPENFILES);
                 return -1;
             }
         }
